@@ -60,6 +60,18 @@ def bias_world(r, W, anp):
         for i, sel in enumerate([{'matchExpressions': [{'key': gen.NSKEY, 'operator': 'In', 'values': [nsx]}]}, {'matchLabels': {gen.NSKEY: nsx}}]):
             W['netpols'].append({'ns': w['ns'], 'name': 'spell%d' % i, 'podSelector': {}, 'policyTypes': ['Egress'],
                                  'egress': [{'to': [{'namespaceSelector': sel}], 'ports': [{'port': 1 + i}]}]})
+    if not anp and r.random() < 0.2 and W['workloads']:
+        # several policies that together open all three protocols to the entire cluster, one of them through a named port, next to a
+        # selector rule without ports: whether the union is recognised as 'All Connections' must not depend on the order they are met in
+        w = r.choice(W['workloads'])
+        d = r.choice(['ingress', 'egress'])
+        key = 'from' if d == 'ingress' else 'to'
+        pt = ['Ingress' if d == 'ingress' else 'Egress']
+        nm = r.choice([c['name'] for c in w['ports'] if c['name']] + ['http'])
+        for i, ports in enumerate([[{'protocol': 'TCP', 'port': 1, 'endPort': 65535}], [{'protocol': 'UDP', 'port': 1, 'endPort': 65535}],
+                                   [{'protocol': 'SCTP', 'port': 1, 'endPort': 65535}], [{'protocol': r.choice(gen.PROTOS), 'port': nm}]]):
+            W['netpols'].append({'ns': w['ns'], 'name': 'full%d' % i, 'podSelector': {}, 'policyTypes': pt, d: [{key: [{'namespaceSelector': {}}], 'ports': ports}]})
+        W['netpols'].append({'ns': w['ns'], 'name': 'full9', 'podSelector': {}, 'policyTypes': pt, d: [{key: [{'podSelector': {'matchLabels': {'role': 'q'}}}]}]})
     if r.random() < 0.3:
         # a Route and an Ingress that certainly yield {ingress-controller} lines: own namespace without policies
         W['workloads'].append({'kind': 'Deployment', 'ns': 'nsr', 'name': 'wr', 'labels': {'app': 'r'}, 'replicas': 1, 'owner': None, 'omit_ns': False,
